@@ -15,7 +15,8 @@ EXPLANATION = (
     "install loop setattr's every item of exactly that dict; C12-R4 a method loads the free name "
     "__class__ iff it uses zero-argument super and the loader binds __class__ before the body; "
     "C12-R5 the implicit-classmethod set equals {__init_subclass__, __class_getitem__} (data model "
-    "3.3.3.1, 3.3.5), only for methods; C06-R6 instance for attributes defined under version guards."
+    "3.3.3.1, 3.3.5), only for methods; C06-R6 instance for attributes defined under version guards; "
+    "C06-R4 instance for the class namespace (owner of a free name read by a class body)."
 )
 ASSUMPTIONS = ["metaclass derivation, __prepare__, __set_name__, MRO are run-time behaviour of type(...) (not decided)"]
 
